@@ -134,8 +134,8 @@ M = {
    [("smtp/smtp.go", "c.conn.SetDeadline(time.Now().Add(timeout))", "c.conn.SetDeadline(time.Now().Add(timeout * 1000))")]),
  "C17-dial-deadline-cleared-after-greeting": ("C17", ["C17"], "the dial-phase deadline is cleared once the greeting was read",
    [("client.go", "\tif c.logger != nil {\n\t\tclient.SetLogger(c.logger)\n\t}", "\t_ = connection.SetDeadline(time.Time{})\n\tif c.logger != nil {\n\t\tclient.SetLogger(c.logger)\n\t}")]),
- "C18-header-limit-plus-three": ("C18", ["C18"], "header folding limit raised by three characters",
-   [("msgwriter.go", "\tcharLength := MaxHeaderLength - 2\n", "\tcharLength := MaxHeaderLength + 1\n")]),
+ "C18-header-limit-plus-seven": ("C18", ["C18"], "header folding limit raised by seven characters",
+   [("msgwriter.go", "\tcharLength := MaxHeaderLength - 2\n", "\tcharLength := MaxHeaderLength + 5\n")]),
  "C18-trailing-blank-not-removed": ("C18", ["C18"], "blank before a folding CRLF is kept",
    [("msgwriter.go", "\tbufferString = strings.ReplaceAll(bufferString, fmt.Sprintf(\" %s\", SingleNewLine),\n\t\tSingleNewLine)\n", "")]),
  "C18-linebreaker-recursion-loses-chunk-boundary": ("C18", ["C18", "C01"], "base64 line breaker drops the excess bytes when a write straddles a line end exactly at 2x76",
